@@ -181,6 +181,12 @@ class Grid(object):
                     pvalue = int(line[1].strip())
                 elif pname.startswith("parentgrid_n"):
                     pvalue = int(line[1].strip())
+                elif pname.startswith("nodata"):
+                    # keep integer no data values exact
+                    try:
+                        pvalue = int(line[1].strip())
+                    except ValueError:
+                        pvalue = float(line[1].strip())
                 else:
                     pvalue = float(line[1].strip())
 
@@ -552,6 +558,9 @@ class Grid(object):
                             "yllcorner", "cellsize"]:
                 attval = getattr(self, attname)
                 fh.write("{0:<14} {1}\n".format(attname.upper(), attval))
+
+            # no data value
+            fh.write("{0:<14} {1}\n".format("NODATA_VALUE", self.nodata))
 
             # nbits
             ddtype = np.dtype(self.dtype)
